@@ -34,6 +34,7 @@ def records_for_run(args):
                 fl = np.floor(r)
                 fr = r - fl
                 clone = clone_rng(s.rng)
+                pre_state = s.rng.bit_generator.state
                 u = clone.random(n)
                 st0 = stored_digest(s)
                 w0 = digest([np.asarray(x) for x in base])
@@ -52,6 +53,22 @@ def records_for_run(args):
                     if has_blobs and not np.array_equal(np.asarray(out[3][k]), np.asarray(bl[i - 1])):
                         triples = False
                         break
+                # the same call returning dictionaries (Prior objects only): same rows, same weights, same blobs
+                dict_ok = True
+                if not callable(s.prior):
+                    st_before = s.rng.bit_generator.state
+                    s.rng.bit_generator.state = pre_state
+                    outd = s.posterior(return_as_dict=True, equal_weight=True, equal_weight_boost=b, return_blobs=has_blobs)
+                    s.rng.bit_generator.state = st_before
+                    try:
+                        keys = list(outd[0].keys())
+                        arr = np.stack([np.asarray(outd[0][k]) for k in s.prior.keys if hasattr(s.prior.dists[s.prior.keys.index(k)], 'isf')], axis=-1)
+                        dict_ok = bool(np.array_equal(arr, np.asarray(out[0])) and np.array_equal(outd[1], out[1]) and
+                                       np.array_equal(outd[2], out[2]) and len(keys) == len(s.prior.keys))
+                        if has_blobs:
+                            dict_ok = dict_ok and bool(np.array_equal(np.asarray(outd[3]), np.asarray(out[3])))
+                    except Exception:
+                        dict_ok = False
                 lw = np.asarray(out[1])
                 weq = bool(len(lw) == 0 or (np.all(lw == lw[0]) and abs(np.sum(np.exp(lw)) - 1) < 1e-9))
                 recs.append(dict(cfg=_key(cfg), boost=float(b), boostLe1=bool(b <= 1), n=int(n),
@@ -59,7 +76,7 @@ def records_for_run(args):
                                  u=[int(np.floor(x * SCALE)) for x in u], mult=[int(x) for x in mult],
                                  order=order, cloneOK=clone_ok, triplesOK=bool(triples), weightsEqual=weq,
                                  weightedUnchanged=bool(w0 == digest([np.asarray(x) for x in after])),
-                                 storedUnchanged=bool(st0 == stored_digest(s)),
+                                 storedUnchanged=bool(st0 == stored_digest(s)), dictSame=bool(dict_ok),
                                  zero_weight_rows=int(np.sum(r == 0)), n_out=len(order)))
     ckpt._close(s)
     return recs
